@@ -203,6 +203,7 @@ def _worker(job):
             ex.hooks[FP + '.vAssertShift'] = gl.h_assert_shift
             ex.hooks[FP + '.vAssertSetValue'] = gl.h_assert_set
             ex.hooks[FP + '.vAssertRoundedInt'] = gl.h_assert_roundint
+            ex.hooks[FP + '.vAssertHalfwayFits'] = gl.h_assert_halfway
         if job.opts.get('bv_only'):
             ex.solver.use_lia = False
         if job.opts.get('absdec'):
